@@ -94,3 +94,8 @@ package tlstcp
 //@   ensures sel("select#1") != 0 && cfg == nil ==> result == mangos.ErrTLSNoConfig && !called("Listen")
 //@   ensures !isnil(result) ==> !spawned("Listen$1")
 //@   ensures isnil(result) ==> spawned("Listen$1") && called("NewListener")
+
+// ---- round 9: a refused Listen leaves nothing bound ----
+//@ func (*listener).Listen
+//@   ensures !isnil(result) && called("Listen") ==> !isnil(lerr)
+//@   ensures result == mangos.ErrTLSNoCert ==> !called("Listen")
